@@ -154,22 +154,30 @@ def check_protected_bstr(ctx, rule):
            detail={"found": sorted(cen)})
 
 
+def check_wrappers(ctx, rule):
+    """the public `from_cbor_value` of the depth-budgeted decoders is the budgeted function with a positive constant budget"""
+    prog = ctx.prog
+    for w, target in sorted(WRAPPERS.items()):
+        f = prog.fn(w)
+        rt = resolve_consts(prog, Prov(f).return_term())
+        ok = is_call(rt) and rt[1] == target and len(rt[2]) == 2 and rt[2][0] == ("param", 0) and rt[2][1][0] == "const" \
+            and isinstance(rt[2][1][1], int) and rt[2][1][1] >= 1
+        ctx.ob(rule, "wrapper:%s" % w, ok, "%s is exactly %s(value, <constant budget >= 1>)" % (w, target), where=f.span,
+               detail={"return": show(rt)[:160]})
+
+
 def check(ctx):
     prog = ctx.prog
     for ty in MESSAGE_TYPES:
         check_struct(ctx, ty, STRUCTS[ty])
     ctx.floor("R-2", "message types", len(MESSAGE_TYPES), 8)
+    from rules import extractors as _ex
+    _ex.check_extractors(ctx.under("R-2", "extractors"), "R-2")
     from rules import c13 as _c13
     _c13.check_read_to_value(ctx.under("R-5", "parser-entry"), "R-5")      # the byte-level entry hands on exactly the parsed item
     from rules import c15 as _c15
     _c15.check_rejections_propagate(ctx.under("R-3", "rejections"), "R-3", set(), variants=None, what="any decoding error", floor=40)
 
     # R-5 wrappers and the protected bstr
-    for w, target in sorted(WRAPPERS.items()):
-        f = prog.fn(w)
-        rt = resolve_consts(prog, Prov(f).return_term())
-        ok = is_call(rt) and rt[1] == target and len(rt[2]) == 2 and rt[2][0] == ("param", 0) and rt[2][1][0] == "const" \
-            and isinstance(rt[2][1][1], int) and rt[2][1][1] >= 1
-        ctx.ob("R-5", "wrapper:%s" % w, ok, "%s is exactly %s(value, <constant budget >= 1>)" % (w, target), where=f.span,
-               detail={"return": show(rt)[:160]})
+    check_wrappers(ctx, "R-5")
     check_protected_bstr(ctx, "R-5")
